@@ -353,7 +353,7 @@ pub fn g_j(r: &Recipe, lim: Limits) -> (Vec<u8>, &'static str) {
 pub fn check_recipe(r: &Recipe, lim: Limits, stats: &mut Stats) -> Result<(), Failure> {
     let (input, class) = g_j(r, lim);
     stats.class(class);
-    let mut results: Vec<(u64, u64)> = Vec::with_capacity(8);
+    let mut results: Vec<(u64, u64)> = Vec::with_capacity(FRONTS.len());
     for front in FRONTS.iter() {
         let b32 = check_front(front, Fmt::F32, &input, stats)?;
         let b64 = check_front(front, Fmt::F64, &input, stats)?;
@@ -413,9 +413,11 @@ pub fn check_recipe(r: &Recipe, lim: Limits, stats: &mut Stats) -> Result<(), Fa
 pub fn run(ctx: &Ctx) -> i32 {
     let lim: Limits = ctx.tier.pick(Limits { long: 1_500, huge: 5_000 }, Limits { long: 10_000, huge: 100_000 });
     let mut rep = Report::new(
-        "The four front-end copies (examples/simple.rs, fuzz/fuzz_targets/parse.rs, tests/integration_tests.rs, \
-         etc/correctness/test-parse-golang/main.rs) are extracted from the repository sources at build time and \
-         compiled against two feature configurations each (8 callable copies). Inputs (G-J): grammar \
+        "All seven front-end copies in the repository (examples/simple.rs, fuzz/fuzz_targets/parse.rs, \
+         tests/integration_tests.rs, etc/correctness/test-parse-golang/main.rs whole; the front-end functions of \
+         etc/correctness/{rng-tests,test-parse-random}/_common.rs and test-parse-unittests/main.rs sliced out textually) \
+         are extracted from the repository sources at build time and compiled against the shim configurations (11 \
+         callable copies). Inputs (G-J): grammar \
          [+-]? D* (. D*)? ([eE] [+-]? D*)? with every part optional, digit strings from the boundary generators \
          (midpoints, closest approaches, long tails) or random, leading/trailing zeros, exponent digit strings of \
          0..25 digits incl. the i32/i64 edges, suffixes (text, second '.'/'e', non-ASCII); nan/inf/infinity and \
@@ -428,7 +430,7 @@ pub fn run(ctx: &Ctx) -> i32 {
          non-empty suffix, zeros to trim, exponent beyond 10 digits, special literal, lone sign/dot/marker, or more \
          than 19 digits; distinct by input bytes.",
     );
-    rep.assume("the two correctness tools that need uncached crates (test-parse-random, test-parse-unittests) are not executed");
+    rep.assume("for the three correctness-tool copies that need uncached crates only the front-end functions (parse_sign .. parse_float) are compiled and executed, not the tools' drivers");
     let cases = ctx.cases(500_000, 30_000_000);
     let r = run_recipes(ctx.seed, cases, ctx.threads, 19, |r, stats| check_recipe(r, lim, stats));
     rep.absorb(r);
